@@ -143,9 +143,10 @@ PROPS = {
         "expected_theorems": ["C11_occupied_exact", "C11_occupied_in_time_order", "C11_count_is_number_of_occupied", "C11_first_is_minimum",
                               "C11_last_is_maximum", "C11_bond_counts_add_up", "C11_var_has_ops_exact",
                               "C11_mutate_p_refines", "C11_sweep_invariant", "C11_new_container_is_scan", "C11_cutoff_growth_refines", "C11_cursor_matches_node",
-                              "C11_world_line_walk_is_scan", "C11_global_walk_is_scan", "C11_constant_ops_on_var_is_scan", "C11_does_var_have_ops_is_scan"],
+                              "C11_world_line_walk_is_scan", "C11_global_walk_is_scan", "C11_constant_ops_on_var_is_scan", "C11_does_var_have_ops_is_scan",
+                              "C11_fill_args_at_p_is_scan_cursor", "C11_mutate_subsection_refines", "C11_fill_args_zero_variable_refuted"],
         "assumptions": [
-            "the refinement theorems cover mutate_p with the All cursor, construction, cutoff growth and the link walks (per-variable and global: they enumerate exactly what a scan finds). fill_args_at_p (All) is transcribed (Model/FastOpsNav.v) and compared with the scan cursor on every replayed mutation sequence, but its equality with the scan cursor is NOT proved (it needs every stored operator to act on at least one variable: with only zero-variable operators the code leaves last_p unset); clear_and_install_ops, mutate_subsection_ops and sub-variable (Varlist) / hinted cursors are not transcribed — they are covered by the per-mutation differential check of every link field and by the RVB replay (C03), which runs them through their scan specification",
+            "the refinement theorems cover mutate_p with the All cursor, construction, cutoff growth and the link walks (per-variable and global: they enumerate exactly what a scan finds). fill_args_at_p (All) is transcribed (Model/FastOpsNav.v) and PROVED equal to the scan cursor for every string whose operators act on at least one variable each (with only zero-variable operators stored the code leaves last_p unset: refutation theorem with witness; no library caller reaches it), hence mutate_subsection as a whole refines; clear_and_install_ops, mutate_subsection_ops and sub-variable (Varlist) / hinted cursors are not transcribed — they are covered by the per-mutation differential check of every link field and by the RVB replay (C03), which runs them through their scan specification",
             "the model is total (a read through a missing node yields None): panic freedom of the unwrap / index sites is not a theorem",
             "mutation callbacks respect the container's contracts: mutate_ops / sub-variable cursors only replace operators on the same variables (removal through mutate_ops reads next_p of the removed node and panics; a cursor cannot be prepared at p = len)",
         ],
